@@ -58,6 +58,14 @@ ACCEPT = [
     ('ug-assumption-output', 'program', 'p(X) :- q(X).', 'p(X) :- q(X).', UG + ' assumption: forall X (p(X) -> q(X)).'),
     ('ug-assumption-private', 'program', 'p(X) :- q(X), not r(X). r(X) :- q(X), X > 1.', 'p(X) :- q(X), X <= 1.',
      UG + ' assumption: forall X (r(X) -> q(X)).'),
+    ('ug-assumption-private-of-right-program', 'program', 'p(X) :- q(X), X <= 1.', 'p(X) :- q(X), not r(X). r(X) :- q(X), X > 1.',
+     UG + ' assumption: forall X (r(X) -> q(X)).'),
+    ('ug-assumption-private-of-right-program-ground', 'program', 'p(1).', 'r(1). p(X) :- r(X), X != 1.', 'output: p/1. assumption: not r(1).'),
+    ('ug-assumption-private-of-both-programs', 'program', 'p(X) :- q(X), not r(X). r(X) :- q(X), X > 1.',
+     'p(X) :- q(X), not r(X). r(X) :- q(X), X > 1.', UG + ' assumption: not r(5).'),
+    ('ug-assumption-undeclared-predicate', 'program', 'p(X) :- q(X).', 'p(X) :- q(X).', UG + ' assumption: forall X (zzz(X) -> q(X)).'),
+    ('spec-assumption-private-of-program', 'spec', 'assumption: forall X (r(X) -> q(X)). spec: forall X (p(X) <-> q(X) and X <= 1).',
+     'p(X) :- q(X), not r(X). r(X) :- q(X), X > 1.', UG),
     ('ug-assumption-inputs-only', 'program', 'p(X) :- q(X).', 'p(X) :- q(X).', UG + ' assumption: forall X (q(X) -> X > 0).'),
     ('ug-second-assumption-output', 'program', 'p(X) :- q(X).', 'p(X) :- q(X).',
      UG + ' assumption: forall X (q(X) -> X > 0). assumption: forall X (q(X) -> p(X)).'),
